@@ -15,6 +15,7 @@ package props
 import (
 	"encoding/json"
 	"fmt"
+	"io"
 	"math"
 	"sort"
 	"strings"
@@ -37,6 +38,25 @@ const (
 type c08Case struct {
 	Format string `json:"format"` // json | xml
 	Doc    string `json:"doc"`
+	// Wrap (xml): how the document reaches idr.NewXMLStreamReader: 0 *strings.Reader (has ReadByte), 1 a plain io.Reader
+	// handing out everything at once, 2 a plain io.Reader in 7-byte pieces, 3 one byte per Read
+	Wrap int `json:"wrap,omitempty"`
+}
+
+type c08Plain struct{ r io.Reader }
+
+func (p c08Plain) Read(b []byte) (int, error) { return p.r.Read(b) }
+
+func (c c08Case) reader() io.Reader {
+	switch c.Wrap {
+	case 1:
+		return c08Plain{strings.NewReader(c.Doc)}
+	case 2:
+		return c08Plain{run.NewChunkReader([]byte(c.Doc), run.Schedule{Sizes: []int{7}})}
+	case 3:
+		return c08Plain{run.NewChunkReader([]byte(c.Doc), run.Schedule{Sizes: []int{1}})}
+	}
+	return strings.NewReader(c.Doc)
 }
 
 func genC08(t *rapid.T) c08Case {
@@ -78,7 +98,27 @@ func genC08(t *rapid.T) c08Case {
 	}
 	o.AttrValues = []string{"0", "1", "", " ", "x y"}
 	d := gen.DrawXMLDoc(t, o)
-	return c08Case{Format: "xml", Doc: d.Render()}
+	c := c08Case{Format: "xml", Doc: d.Render()}
+	c.Wrap = rapid.SampledFrom([]int{0, 0, 1, 2, 3}).Draw(t, "wrap")
+	// a pure-ASCII document may as well declare a single-byte encoding: the decoder then switches to a converting reader
+	// in the middle of the input
+	ascii := true
+	for i := 0; i < len(c.Doc); i++ {
+		if c.Doc[i] >= 0x80 {
+			ascii = false
+		}
+	}
+	if ascii && rapid.IntRange(0, 2).Draw(t, "asciiDecl") == 0 {
+		label := rapid.SampledFrom([]string{"ISO-8859-1", "us-ascii", "windows-1252"}).Draw(t, "asciiDeclLabel")
+		body := c.Doc
+		if strings.HasPrefix(body, "<?xml") {
+			if i := strings.Index(body, "?>"); i >= 0 {
+				body = body[i+2:]
+			}
+		}
+		c.Doc = `<?xml version="1.0" encoding="` + label + `"?>` + body
+	}
+	return c
 }
 
 // ---------------------------------------------------------------------------------------------
@@ -518,7 +558,7 @@ func c08CheckXML(c c08Case) obs.Result {
 	classes = uniq
 	nonTrivial := len(dom.Bindings) >= 2 || dom.Mixed || dom.HasCDATA || dom.HasEntity
 
-	r, err := idr.NewXMLStreamReader(strings.NewReader(c.Doc), "/*")
+	r, err := idr.NewXMLStreamReader(c.reader(), "/*")
 	if err != nil {
 		return obs.Violationf("NewXMLStreamReader: %v", err)
 	}
